@@ -10,6 +10,8 @@ type builder struct {
 	doc             *XMLDoc
 	dict            *DataDictionary
 	componentByName map[string]*XMLComponent
+	// Components whose type is being built, to detect components that contain themselves.
+	inProgress map[string]bool
 }
 
 func (b *builder) build(doc *XMLDoc) (*DataDictionary, error) {
@@ -29,6 +31,7 @@ func (b *builder) build(doc *XMLDoc) (*DataDictionary, error) {
 		return nil, errors.New("minor attribute not valid on <fix>")
 	}
 
+	b.inProgress = make(map[string]bool)
 	b.componentByName = make(map[string]*XMLComponent)
 	for _, c := range doc.Components {
 		b.componentByName[c.Name] = c
@@ -84,6 +87,12 @@ func (b builder) findOrBuildComponentType(xmlMember *XMLComponentMember) (*Compo
 }
 
 func (b builder) buildComponentType(xmlComponent *XMLComponent) (*ComponentType, error) {
+	if b.inProgress[xmlComponent.Name] {
+		return nil, fmt.Errorf("component %v contains itself", xmlComponent.Name)
+	}
+	b.inProgress[xmlComponent.Name] = true
+	defer delete(b.inProgress, xmlComponent.Name)
+
 	var parts []MessagePart
 
 	for _, member := range xmlComponent.Members {
